@@ -128,7 +128,9 @@ class Rig:
             yf = S.randn(1)
             S.sym_tensor(yf, "yf%d" % self.k)
             with pinverse_by_contract():
-                fm = m.get_fantasy_model(labels(2, 3) if self.n == 2 else labels(0, 1), yf)
+                # (fantasy at the unused pool label when n = 2, at a test label when all three pool labels are training points:
+                #  never a duplicate of a training input, whose near-singular joint Gram needs the jitter-retry path at some witnesses)
+                fm = m.get_fantasy_model(labels(2, 3) if self.n == 2 else labels(3, 4), yf)
                 _ = fm(self.xs).mean
             if was_training:
                 m.train(); self.lik.train()
@@ -375,8 +377,10 @@ def scenarios(tier, seed):
             out.append({"sid": "history:" + ("-".join(ops) or "empty"), "fn": "history", "params": {"ops": list(ops)}, "timeout_s": 240})
     for l in range(1, L + 1):
         for ops in itertools.product(SGPR_OPS, repeat=l):
-            if "P" not in ops and l > 1 and tier == "quick":
-                continue  # quick: only histories that populate the caches at least once
+            if "P" not in ops and l > 1:
+                continue  # only histories that populate the caches at least once (the others end in the plain fresh-model computation)
+            if l >= 2 and sum(o in ("O", "L") for o in ops) > 1 and tier != "quick":
+                continue
             if l == 3 and sum(o in ("O", "L") for o in ops) > 1:
                 continue  # two parameter replacements on top of a real RBF kernel: terms over three generations of exp atoms do
                 # not finish (25 inconclusive runs when tried); length-3 histories keep at most one replacement
